@@ -262,13 +262,13 @@ func v16CredSets() [][]v16Cred {
 		nil,
 		{id("alice", "s3cret")},
 		{id("alice", "s3cret"), id("bob", "hunter2"), id("carol", "x")},
-		{id("", "nopass")},                    // only an empty user name: nobody can log in
-		{id("", "nopass"), id("dave", "pw")},   // empty name dropped, dave stays
-		{id("erin", "")},                      // empty password
+		{id("", "nopass")},                   // only an empty user name: nobody can log in
+		{id("", "nopass"), id("dave", "pw")}, // empty name dropped, dave stays
+		{id("erin", "")},                     // empty password
 		{{"{env.VERIF_C16_U}", "{env.VERIF_C16_P}", "alice", "s3cret"}}, // placeholders with values
-		{{"{env.VERIF_C16_NOPE}", "pw", "", "pw"}},                       // placeholder that expands to nothing: dropped
+		{{"{env.VERIF_C16_NOPE}", "pw", "", "pw"}},                      // placeholder that expands to nothing: dropped
 		{{"{nosuch.key}frank", "p{nosuch}w", "frank", "pw"}},
-		{id("us{er", "p}w"), {"a\\{b\\}", "\\{x\\}", "a{b}", "{x}"}},      // braces that are not placeholders, escapes
+		{id("us{er", "p}w"), {"a\\{b\\}", "\\{x\\}", "a{b}", "{x}"}}, // braces that are not placeholders, escapes
 		{{"{env.VERIF_C16_EMPTY}", "{env.VERIF_C16_EMPTY}", "", ""}, id("gina", "{")},
 	}
 }
@@ -581,7 +581,7 @@ func v16Provision(cfg v16Cfg) (*Socks5Handler, error, context.CancelFunc) {
 	return h, err, cancel
 }
 
-func v16Run(h *Socks5Handler, tgt *v16Target, chunks [][]byte, client v16Client, udpProbe bool, udpHost string, udpPort int) (o v16Obs) {
+func v16Run(h *Socks5Handler, tgt *v16Target, chunks [][]byte, client v16Client, udpProbe bool, udpHost net.IP, udpPort int) (o v16Obs) {
 	before := tgt.count()
 	conn := v16NewConn(chunks, client.addr)
 	cx := layer4.WrapConnection(conn, nil, zap.NewNop())
@@ -650,10 +650,9 @@ type v16Probe struct {
 	relayed bool
 }
 
-func v16UDPProbes(relayPort int, dstHost string, dstPort int, clientIP net.IP) []v16Probe {
-	dst := net.ParseIP(dstHost)
-	if dst == nil {
-		return nil
+func v16UDPProbes(relayPort int, dst net.IP, dstPort int, clientIP net.IP) []v16Probe {
+	if len(dst) == 0 { // an empty domain name: nothing announced
+		dst = net.IPv4zero
 	}
 	// the one source a correct relay accepts: the announced address, or the client's own if none
 	// was announced (nil: the client's IP is unknown to the handler, every source is accepted)
@@ -681,7 +680,11 @@ func v16UDPProbes(relayPort int, dstHost string, dstPort int, clientIP net.IP) [
 	if other := v16OtherAddr(); other != nil {
 		plans = append(plans, plan{other, 0})
 	}
+	plans = append(plans, plan{net.IPv4(127, 0, 0, 2), 0}) // another loopback address: a different host as far as the relay can tell
 	plans = append(plans, plan{net.IPv4(127, 0, 0, 1), 0})
+	if dstPort != 0 {
+		plans = append(plans, plan{net.IPv4(127, 0, 0, 2), dstPort}) // the announced port from the wrong address
+	}
 	// a sentinel is possible when the accepted source is an address of this machine
 	haveSentinel := true
 	switch {
@@ -856,7 +859,8 @@ func (e *v16Engine) session(cfg v16Cfg, h *Socks5Handler, sc v16Script) {
 		} else {
 			if rq.host != "" {
 				annIP = net.ParseIP(rq.host)
-				if annIP == nil || !(annIP.IsLoopback() || annIP.IsUnspecified()) {
+				// CONNECT would dial it; UDP ASSOCIATE only records it as the client's announced endpoint
+				if annIP == nil || (rq.cmd != 3 && !(annIP.IsLoopback() || annIP.IsUnspecified())) {
 					e.out.Stat("skipped_foreign_destination", sc.name)
 					return
 				}
@@ -872,13 +876,10 @@ func (e *v16Engine) session(cfg v16Cfg, h *Socks5Handler, sc v16Script) {
 			return
 		}
 	}
-	// UDP relay probes for ASSOCIATE requests that announce a loopback or unspecified address (as an
-	// IPv4, IPv6 or IPv4-mapped literal, or through a name)
-	udpProbe := rq.present && rq.cmd == 3 && annIP != nil && (annIP.IsLoopback() || annIP.IsUnspecified()) && (rq.port == 0 || rq.port == e.tgt.port || rq.port == e.gen.closed)
-	annHost := ""
-	if annIP != nil {
-		annHost = annIP.String()
-	}
+	// UDP relay probes after every UDP ASSOCIATE with a known announced endpoint: nothing (an
+	// unspecified literal of either family, an empty name), a loopback or foreign literal, a name
+	udpProbe := rq.present && rq.cmd == 3 && (rq.atyp != 3 || rq.fqdn == "" || annIP != nil) && (rq.port == 0 || rq.port == e.tgt.port || rq.port == e.gen.closed)
+	annHost := annIP
 	chunks := v16Chunks(e.r, sc.b)
 	o := v16Run(h, e.tgt, chunks, e.client, udpProbe, annHost, rq.port)
 	input := map[string]any{"client_address": e.client.name + " " + e.client.addr.String(), "config": cfg.name, "commands": cfg.cmds, "credentials": fmt.Sprint(cfg.creds), "script": sc.name, "bytes": hex.EncodeToString(sc.b)}
@@ -1348,6 +1349,66 @@ func TestVerifC16(t *testing.T) {
 			count++
 		}
 	}
+	// 3c. UDP ASSOCIATE, every class of announced endpoint x datagram sources (the probes): nothing
+	//     announced with port 0 / with a port (IPv4, IPv6, IPv4-mapped, empty name, the name
+	//     "0.0.0.0"), the client's own address with port 0 / with a port (literal and by name), the
+	//     IPv6 loopback, a foreign concrete address
+	{
+		p := closed
+		if p == 0 {
+			p = tgt.port
+		}
+		pb := []byte{byte(p >> 8), byte(p)}
+		type ep struct {
+			name string
+			atyp byte
+			addr []byte
+			port []byte
+		}
+		nameAddr := func(n string) []byte { return append([]byte{byte(len(n))}, n...) }
+		eps := []ep{
+			{"0.0.0.0:0", 1, net.IPv4zero.To4(), []byte{0, 0}},
+			{"0.0.0.0:p", 1, net.IPv4zero.To4(), pb},
+			{"[::]:0", 4, net.IPv6unspecified, []byte{0, 0}},
+			{"[::]:p", 4, net.IPv6unspecified, pb},
+			{"[::ffff:0.0.0.0]:p", 4, net.IPv4zero.To16(), pb},
+			{"empty name:0", 3, nameAddr(""), []byte{0, 0}},
+			{"empty name:p", 3, nameAddr(""), pb},
+			{"name 0.0.0.0:p", 3, nameAddr("0.0.0.0"), pb},
+			{"name :::p", 3, nameAddr("::"), pb},
+			{"127.0.0.1:0", 1, net.IPv4(127, 0, 0, 1).To4(), []byte{0, 0}},
+			{"127.0.0.1:p", 1, net.IPv4(127, 0, 0, 1).To4(), pb},
+			{"localhost:p", 3, nameAddr("localhost"), pb},
+			{"[::1]:p", 4, net.IPv6loopback, pb},
+			{"10.1.2.3:p (foreign)", 1, net.IPv4(10, 1, 2, 3).To4(), pb},
+			{"10.1.2.3:0 (foreign)", 1, net.IPv4(10, 1, 2, 3).To4(), []byte{0, 0}},
+		}
+		for _, ck := range [][2]int{{4, 1}, {3, 6}, {0, 0}} {
+			cfg, h := get(ck[0], ck[1])
+			if h == nil {
+				continue
+			}
+			hasCreds := len(cfg.creds) > 0
+			for _, x := range eps {
+				var b []byte
+				name := "methods0"
+				if hasCreds {
+					b = append(b, e.gen.methods(1)...)
+					_, u, pw, _ := authFor(cfg, 0)
+					b = append(b, v16Auth(1, u, pw)...)
+					name = "methods1+auth:valid"
+				} else {
+					b = append(b, e.gen.methods(0)...)
+				}
+				reqOff := len(b)
+				b = append(b, 5, 3, 0, x.atyp)
+				b = append(b, x.addr...)
+				b = append(b, x.port...)
+				run(ck[0], ck[1], v16Script{name: name + "+associate(" + x.name + ")", b: b, reqOff: reqOff})
+				count++
+			}
+		}
+	}
 	// 4. the address the client connection reports: UDP ASSOCIATE announcing no address (three ways)
 	//    and an explicit one, from clients with a zoned link-local address, an IPv4-mapped address,
 	//    a non-TCP net.Addr, ... A real datagram cannot come from most of these addresses here, so
@@ -1388,40 +1449,42 @@ func v16PinCases(out *vOut) {
 	for _, cl := range v16Clients() {
 		for _, cmd := range []byte{1, 2, 3, 4} {
 			for _, ann := range announced {
-				atyp := statute.ATYPIPv4
-				if len(ann) == 16 && ann.To4() == nil {
-					atyp = statute.ATYPIPv6
-				}
-				req := &socks5.Request{
-					Request:     statute.Request{Version: 5, Command: cmd},
-					RemoteAddr:  cl.addr,
-					RawDestAddr: &statute.AddrSpec{IP: ann, Port: 0, AddrType: atyp},
-				}
-				var got net.IP
-				func() {
-					defer func() {
-						if r := recover(); r != nil {
-							in := map[string]any{"rewriter": true, "client_address": cl.name + " " + cl.addr.String(), "command": cmd, "announced": ann.String()}
-							out.Fail("C16:handler:panic", fmt.Sprint(r), in)
-							out.Fail("C04:socks5-handler:panic", fmt.Sprint(r), in)
+				for _, port := range []int{0, 4242} {
+					atyp := statute.ATYPIPv4
+					if len(ann) == 16 && ann.To4() == nil {
+						atyp = statute.ATYPIPv6
+					}
+					req := &socks5.Request{
+						Request:     statute.Request{Version: 5, Command: cmd},
+						RemoteAddr:  cl.addr,
+						RawDestAddr: &statute.AddrSpec{IP: ann, Port: port, AddrType: atyp},
+					}
+					var got net.IP
+					func() {
+						defer func() {
+							if r := recover(); r != nil {
+								in := map[string]any{"rewriter": true, "client_address": cl.name + " " + cl.addr.String(), "command": cmd, "announced": ann.String()}
+								out.Fail("C16:handler:panic", fmt.Sprint(r), in)
+								out.Fail("C04:socks5-handler:panic", fmt.Sprint(r), in)
+							}
+						}()
+						_, spec := associateSourceRewriter{}.Rewrite(context.Background(), req)
+						if spec != nil {
+							got = spec.IP
 						}
 					}()
-					_, spec := associateSourceRewriter{}.Rewrite(context.Background(), req)
-					if spec != nil {
-						got = spec.IP
+					input := map[string]any{"client_address": cl.name + " " + cl.addr.String(), "command": cmd, "announced": ann.String(), "announced_port": port}
+					unannounced := len(ann) == 0 || ann.IsUnspecified()
+					cip := cl.ip()
+					known := len(cip) != 0 && !cip.IsUnspecified()
+					if cmd == 3 && unannounced && known && !got.Equal(cip) {
+						out.Fail("C16:auth:udp-relay-not-pinned-to-client", fmt.Sprintf("UDP ASSOCIATE announcing %v port %d from the client at %v: the relay's source check is given %v instead of the client's IP (every source is accepted when it is unspecified)", ann, port, cl.addr, got), input)
 					}
-				}()
-				input := map[string]any{"client_address": cl.name + " " + cl.addr.String(), "command": cmd, "announced": ann.String()}
-				unannounced := len(ann) == 0 || ann.IsUnspecified()
-				cip := cl.ip()
-				known := len(cip) != 0 && !cip.IsUnspecified()
-				if cmd == 3 && unannounced && known && !got.Equal(cip) {
-					out.Fail("C16:auth:udp-relay-not-pinned-to-client", fmt.Sprintf("UDP ASSOCIATE announcing %v from the client at %v: the relay's source check is given %v instead of the client's IP (every source is accepted when it is unspecified)", ann, cl.addr, got), input)
+					if (cmd != 3 || !unannounced) && !got.Equal(ann) && !(len(got) == 0 && len(ann) == 0) {
+						out.Fail("C16:command:destination-rewritten", fmt.Sprintf("command %d for %v: the library is given %v", cmd, ann, got), input)
+					}
+					out.Case(fmt.Sprintf("CPin %s %d %s %s", cl.coq(), cmd, cHex(ann), cHex(got)), "pin:"+cl.name, cmd == 3 && unannounced, input)
 				}
-				if (cmd != 3 || !unannounced) && !got.Equal(ann) && !(len(got) == 0 && len(ann) == 0) {
-					out.Fail("C16:command:destination-rewritten", fmt.Sprintf("command %d for %v: the library is given %v", cmd, ann, got), input)
-				}
-				out.Case(fmt.Sprintf("CPin %s %d %s %s", cl.coq(), cmd, cHex(ann), cHex(got)), "pin:"+cl.name, cmd == 3 && unannounced, input)
 			}
 		}
 	}
